@@ -150,7 +150,15 @@ fn same(a: &Outcome<Vec<u64>>, b: &Outcome<Vec<u64>>) -> bool {
 
 fn compare(ev: &mut Ev, case: u64, what: &str, base: &Obs, var: &Obs, replay: &J) -> bool {
     if base.len() != var.len() {
-        ev.violation("C13:harness", "observation lists differ in length", case, replay.clone());
+        // one of the two could not even be built (a single "build" observation)
+        let b = base.first().map(|(l, o)| format!("{l}: {}", short(o))).unwrap_or_default();
+        let v = var.first().map(|(l, o)| format!("{l}: {}", short(o))).unwrap_or_default();
+        ev.violation(
+            "C13:layout-dependent-build-outcome",
+            &format!("{what}: baseline starts with [{b}] ({} observations), variant with [{v}] ({} observations)", base.len(), var.len()),
+            case,
+            replay.clone().set("variation", what),
+        );
         return false;
     }
     for ((l1, a), (_, b)) in base.iter().zip(var) {
